@@ -60,6 +60,14 @@ def check_create_index(rep, prog, fn):
             if l.k == 'CXXOperatorCallExpr' and l.op == '[]' and ex.var_of(l.c[1]) is not None and prog.vars[ex.var_of(l.c[1])]['kind'] == 'field':
                 stores.setdefault(ex.var_of(l.c[1]), []).append((d, l.c[2], ops[1]))
     if not edge_loops:
+        # the edges may be numbered without an explicit loop over edges(g): bulk fill + algorithm, or a loop over a copy of the edge list
+        edges_called = [d for d in fn.walk() if d.k == 'CallExpr' and d.callee and d.callee['g'] == 'boost::edges']
+        bulk = [d for d in fn.walk() if d.k == 'CXXMemberCallExpr' and d.callee and d.callee['name'] in ('assign', 'insert', 'push_back', 'emplace_back', 'emplace')
+                and ex.var_of(d.object_arg()) is not None and prog.vars[ex.var_of(d.object_arg())]['kind'] == 'field']
+        if edges_called and (stores or bulk):
+            rep.undecided('R16a', edges_called[0], fn, what, 'edges(g) is read but the numbering is not the recognised single pass with two counters '
+                          '(bulk fill / algorithm over a copy of the edge list)')
+            return
         rep.violation('R16a', fn.body, fn, what, 'no loop over boost::edges(g): no edge is numbered', key='R16a|%s|loops' % fn.g)
         return
     # several sweeps over edges(g) are fine as long as the arms (index stores) are selected by forest membership so that every edge is
@@ -150,6 +158,10 @@ def check_create_index(rep, prog, fn):
     for (v, keyn, valn) in vstores:
         if not any(cfg.pos_of(v)[0] == cfg.pos_of(m[0])[0] for m in mstores):
             problems.append('reverse_index store at line %d has no matching index store' % v.line)
+    refc = [c for c in counters if (prog.type(prog.vars[c].get('ty')) or {}).get('s', '').rstrip().endswith('&')]
+    if refc:
+        rep.undecided('R16a', counters[refc[0]][0], fn, what, 'the counter `%s` is a reference that selects the real counter at run time' % prog.vars[refc[0]]['name'])
+        return
     if len(counters) != 2:
         problems.append('%d counters used (expected two: off-forest and forest)' % len(counters))
     for c, ds in counters.items():
@@ -180,7 +192,7 @@ def check_create_index(rep, prog, fn):
     if len(zero) != 1 or len(high) != 1:
         problems.append('counters do not start at 0 and at the cycle space dimension (%s)' % {prog.vars[c]['name']: repr(L) for c, L in starts.items()})
     else:
-        if not same_dimension(starts[high[0]]):
+        if not same_dimension(starts[high[0]], prog, resolve):
             problems.append('the forest counter starts at %r, not at num_edges - num_vertices + components' % starts[high[0]])
         # arm selection: the zero counter is used when e is NOT in the forest set
         lowstore = counters[zero[0]][0]
@@ -238,6 +250,77 @@ def check_create_index(rep, prog, fn):
         rep.ok('R16a', loop, fn, what, 'one pass over edges(g); two arms, each index[e] = c; reverse_index[c] = e; c++')
 
 
+def check_fields_set(rep, prog, fn):
+    """R16h: the members that cycle_space_dimension() / weak_connected_components() read (n, m, k) are assigned on every path
+    through create_index: a return in front of `k = spanning_forest(..)` leaves the default 0 and m - n + 0 wraps for every
+    graph that has vertices (isolated vertices, a single vertex)"""
+    what = 'every member the dimension formula reads is assigned before create_index returns'
+    cfg = fn.cfg
+    rid = fn.j.get('rec_id')
+    readers = [f for f in prog.functions if f.j.get('rec_id') == rid and not f.implicit and f.body is not None and
+               f.fref['name'] in ('cycle_space_dimension', 'weak_connected_components')]
+    fields = set()
+    for f in readers:
+        for x in f.walk():
+            if x.k == 'MemberExpr' and x.decl_id is not None and x.decl_id < len(prog.vars) and prog.vars[x.decl_id].get('kind') == 'field':
+                fields.add(x.decl_id)
+    if not fields:
+        rep.undecided('R16h', fn.body, fn, what, 'the accessors read no member')
+        return
+    probs = []
+    n_ret = 0
+    rets = list(ex.returns_of(fn))
+    for fid in sorted(fields):
+        asg = [d for (d, _r) in ex.assignments_to(fn, fid)]
+        if not asg:
+            continue            # set elsewhere (constructor)
+        targets = rets + [None]
+        for r in targets:
+            n_ret += 1
+            if r is None:
+                ok = all(any(cfg.pos_of(a) and cfg.block_dominates(cfg.pos_of(a)[0], fb) for a in asg) for fb in _falling_blocks(cfg))
+            else:
+                ok = any(cfg.dominates(a, r) for a in asg)
+            if not ok:
+                where = ('the return at line %d' % r.line) if r is not None else 'the end of the function'
+                conds = [c.text(30) for (c, pol) in ex.ast_conditions(r)] if r is not None else []
+                probs.append((r, 'member `%s` is still unset at %s%s' % (prog.vars[fid]['name'], where, (' (taken when `%s`)' % conds[-1]) if conds else '')))
+    if probs:
+        rep.violation('R16h', probs[0][0] if probs[0][0] is not None else fn.body, fn, what,
+                      '; '.join(sorted(set(p_[1] for p_ in probs))) + ': the dimension m - n + k is then computed from a default value',
+                      key='R16h|%s|unset' % fn.g)
+    else:
+        rep.ok('R16h', fn.body, fn, what, '%d member(s) x %d exit(s)' % (len(fields), len(rets) + 1))
+
+
+def _falling_blocks(cfg):
+    """blocks from which control reaches the exit block without a return statement"""
+    out = []
+    for b in cfg.blocks.values():
+        if cfg.exit in [x for x in b.succ if x is not None]:
+            last = [cfg.fn.nodes.get(e) for e in b.elems if e is not None and e >= 0]
+            last = [n_ for n_ in last if n_ is not None]
+            if not any(n_.k in ('ReturnStmt', 'CXXThrowExpr') for n_ in last):
+                out.append(b.id)
+    return out
+
+
+def shared(rep, prog, rules=('R16a', 'R16b', 'R16c', 'R16h')):
+    """the rules of the forest index that the exact algorithms rely on for "exactly m - n + c cycles" (shared into C01 / C02)"""
+    sub = type(rep)(rep.prop, rep.tier)
+    n = 0
+    for fn in prog.fns(CLS + '::create_index'):
+        check_create_index(sub, prog, fn)
+        check_fields_set(sub, prog, fn)
+        n += 1
+    check_accessors(sub, prog)
+    check_spanning_forest(sub, prog)
+    for i in sub.instances.values():
+        if i.rule in rules:
+            rep.add(i.rule, i.site, i.function, i.what, i.status, i.detail, key=i.key)
+    return n
+
+
 def current_edge(fn, keyn, loop):
     """does keyn denote the edge the loop is visiting: *it of the loop iterator, the range-for variable, or a local defined from one of them"""
     from .phase import is_current_element
@@ -274,13 +357,71 @@ def dimension_form(prog):
     return None
 
 
-def same_dimension(L):
-    """L == num_edges(g) - num_vertices(g) + spanning_forest(...)"""
+def same_dimension(L, prog=None, fd=None, depth=0):
+    """L == num_edges(g) - num_vertices(g) + spanning_forest(...); calls of the class's own nullary accessors (`cycle_space_dimension()`
+    used inside create_index) are expanded through their single return expression"""
+    if prog is not None and depth < 3:
+        for a, c in list(L.terms.items()):
+            if a[0] == 'call' and a[1].startswith(CLS + '::') and tuple(a[2]) == ('this',):
+                cands = [f for f in prog.fns(a[1]) if f.body is not None and not f.param_ids]
+                # one body per class instantiation (the field ids differ): the one over the caller's fields resolves
+                for hf in cands:
+                    rets = ex.returns_of(hf)
+                    if len(rets) != 1 or not rets[0].c:
+                        continue
+
+                    def resolve(vid, hf=hf):
+                        d = ex.unique_def(hf, vid) if prog.vars[vid]['kind'] != 'field' else None
+                        if d is not None:
+                            return d
+                        return fd(vid) if callable(fd) else None
+                    sub = ex.lin(rets[0].c[0], resolve)
+                    L2 = ex.Lin({k_: v_ for k_, v_ in L.terms.items() if k_ != a}, L.const).add(sub.scale(c))
+                    if same_dimension(L2, prog, fd, depth + 1):
+                        return True
+                return False
     coeffs = {}
     for a, c in L.terms.items():
         name = a[1] if a[0] == 'call' else None
         coeffs[name] = coeffs.get(name, 0) + c
     return L.const == 0 and coeffs == {'boost::num_edges': 1, 'boost::num_vertices': -1, 'parmcb::detail::spanning_forest': 1}
+
+
+def lookup_of(prog, fn, e, pid, depth=0):
+    """(container node, key var) of a table read `c.at(k)` / `c[k]` / `c.find(k)->second` / a one-parameter helper of the class that
+    returns such a read of its own parameter; None when `e` is not such a read"""
+    s = e.strip_all() if e is not None else None
+    if s is None or depth > 3:
+        return None
+    if s.k == 'CXXMemberCallExpr' and s.callee and s.callee['name'] == 'at' and s.args():
+        return s.object_arg(), ex.var_of(s.args()[0])
+    if s.k == 'CXXOperatorCallExpr' and s.op == '[]' and len(s.c) == 3:
+        return s.c[1], ex.var_of(s.c[2])
+    if s.k == 'MemberExpr' and s.decl and s.decl.get('name') == 'second' and s.c:
+        b = s.c[0].strip_all()
+        while b.k in ('CXXOperatorCallExpr', 'UnaryOperator') and b.op in ('->', '*') and b.c:
+            b = b.c[-1].strip_all()
+        iv = ex.var_of(b)
+        d = ex.unique_def(fn, iv) if iv is not None else b
+        d = d.strip_all() if d is not None else None
+        if d is not None and d.k == 'CXXMemberCallExpr' and d.callee and d.callee['name'] == 'find' and d.args():
+            return d.object_arg(), ex.var_of(d.args()[0])
+        return None
+    if s.k == 'CXXMemberCallExpr' and s.callee and s.callee.get('in_repo') and s.callee_id is not None and len(s.args()) == 1:
+        hf = prog.fn_of_fref(s.callee_id)
+        if hf is not None and hf.body is not None and hf.j.get('rec_id') == fn.j.get('rec_id') and len(hf.param_ids) == 1:
+            got = set()
+            for r in ex.returns_of(hf):
+                lk = lookup_of(prog, hf, r.c[0], hf.param_ids[0], depth + 1) if r.c else None
+                if lk is None:
+                    return None
+                got.add((ex.var_of(lk[0]), lk[1] == hf.param_ids[0]))
+            if len(got) == 1:
+                (cv, keyed), = got
+                if keyed:
+                    for r in ex.returns_of(hf):
+                        return lookup_of(prog, hf, r.c[0], hf.param_ids[0], depth + 1)[0], ex.var_of(s.args()[0])
+    return None
 
 
 def check_accessors(rep, prog):
@@ -313,7 +454,7 @@ def check_accessors(rep, prog):
                     rep.undecided('R16b', fn.body, fn, what, 'not a single return')
                     continue
                 L = ex.lin(rets[0].c[0], make_resolve(fn))
-                if same_dimension(L):
+                if same_dimension(L, prog, make_resolve(fn)):
                     rep.ok('R16b', rets[0], fn, what, 'normalises to num_edges(g) - num_vertices(g) + spanning_forest(g, .)')
                 else:
                     rep.violation('R16b', rets[0], fn, what, 'normalises to %r' % L, key='R16b|%s|formula' % fn.g)
@@ -338,11 +479,12 @@ def check_accessors(rep, prog):
                     s = node.strip_all()
                     if s.k == 'CXXMemberCallExpr' and s.callee and s.callee['name'] == 'cycle_space_dimension':
                         return True
-                    return same_dimension(ex.lin(node, make_resolve(fn)))
+                    return same_dimension(ex.lin(node, make_resolve(fn)), prog, make_resolve(fn))
 
                 def is_index(node):
                     s = node.strip_all()
-                    return (s.k == 'CXXMemberCallExpr' and s.callee['name'] == 'at' and s.args() and ex.var_of(s.args()[0]) == fn.param_ids[0]) or \
+                    lk = lookup_of(prog, fn, s, fn.param_ids[0])
+                    return (lk is not None and lk[1] == fn.param_ids[0]) or \
                            (s.k == 'CXXOperatorCallExpr' and s.op in ('[]', '()') and ex.var_of(s.c[-1]) == fn.param_ids[0])
 
                 def atomize(leaf):
@@ -378,15 +520,13 @@ def check_accessors(rep, prog):
                 e = rets[0].c[0].strip_all() if rets and rets[0].c else None
                 want = 'std::map' if 'edge_desc_impl' in (pt.get('canon') or '') else 'std::vector'
                 what = 'operator()(%s) reads the %s table with its argument' % ('Edge' if want == 'std::map' else 'index', 'edge -> index' if want == 'std::map' else 'index -> edge')
-                cont = key = None
-                if e is not None and e.k == 'CXXMemberCallExpr' and e.callee['name'] == 'at':
-                    cont, key = e.object_arg(), e.args()[0]
-                elif e is not None and e.k == 'CXXOperatorCallExpr' and e.op == '[]':
-                    cont, key = e.c[1], e.c[2]
-                if cont is not None and (prog.base_type(cont.strip_all().j.get('t')) or {}).get('rec') == want and ex.var_of(key) == fn.param_ids[0]:
+                lk = lookup_of(prog, fn, e, fn.param_ids[0]) if len(rets) == 1 else None
+                if lk is not None and (prog.base_type(lk[0].strip_all().j.get('t')) or {}).get('rec') == want and lk[1] == fn.param_ids[0]:
                     rep.ok('R16b', fn.body, fn, what)
-                else:
+                elif lk is not None or (e is not None and len(rets) == 1 and not ex.refs_var(e, fn.param_ids[0])):
                     rep.violation('R16b', fn.body, fn, what, 'returns `%s`' % (e.text(40) if e is not None else '?'), key='R16b|%s|lookup-%s' % (fn.g, want))
+                else:
+                    rep.undecided('R16b', fn.body, fn, what, 'the returned `%s` is not a recognised table read' % (e.text(40) if e is not None else '?'))
     return n
 
 
@@ -670,6 +810,7 @@ def run_on(rep, prog):
     n = 0
     for fn in prog.fns(CLS + '::create_index'):
         check_create_index(rep, prog, fn)
+        check_fields_set(rep, prog, fn)
         n += 1
     check_accessors(rep, prog)
     check_spanning_forest(rep, prog)
@@ -692,6 +833,7 @@ def run(rep, tier):
     rep.rule('R16f', 'spanning_forest emission sites are guarded and paired with the unreached/queue bookkeeping', floor=1)
     rep.rule('R16e', 'index order is address-free', floor=1)
     rep.rule('R16g', 'index tables are built before they are read', floor=2)
+    rep.rule('R16h', 'n, m and the component count are assigned on every path through create_index', floor=1)
     rep.rule('R07j', 'the forest is built without recursion along the graph (any graph size)', floor=0)
     rep.rule('R07h', 'sizes used while building the index do not wrap for the empty graph (ForestIndex of the empty graph: c = 0, dimension 0)', floor=0)
     rep.rule('R07g', 'the index construction keeps no function-local static state (each ForestIndex is built from its own graph only)', floor=0)
